@@ -54,6 +54,18 @@ CHECKS = {
         technique="Coq proof (finite-map lemmas, induction over histories and write-op prefixes, vm_compute witnesses) + exact model/implementation correspondence over one-argument-variation histories, cross-process reuse, killed runs and every byte-truncation point",
         design="6/C15",
     ),
+    "C01": dict(
+        text="Machine-checked Coq theorems about the per-mode scheme of Model/Solver.v (every Ops with the field laws, every grid, every profile set): T is the symbol of the horizontal operator with all coefficients at one node; every layer update is I + dz*M + dz^2*R (first-order consistent with p' = -q/Kz, q' = T p); the returned mode is a trajectory of the layer recurrence with the prescribed surface flux and the radiation condition q = Kz*eig*p at the top, and the ONLY such trajectory (exact discrete BVP); eig^2 = -T/Kz with (1, Kz*eig) the eigenvector for -eig (decaying continuation, Re eig >= 0 for the principal root). The asymptotic clause (convergence to the continuous BVP, error ratio >= 2.5 per quartering) is decided by an oracle against an independent Riccati integration.",
+        note="PARTIAL: convergence to the ODE solution is not a theorem (no ODE theory for complex systems installed); it is carried by the thorough-tier oracle sweep (and on any broken obligation). Exact arithmetic (Laws O). Tie: bridge lemmas on Ti, a, b, c, d, update, radicand, alpha + float correspondence.",
+        technique="Coq proof (ring/field identities, linearity of the sweep, uniqueness of the shooting coefficient) + slice translator/bridge + float correspondence; reference-solution oracle (scipy DOP853)",
+        design="6/C01",
+    ),
+    "C05": dict(
+        text="Machine-checked Coq theorems about Model/Solver.v: the analytic branch returns, per retained mode and level, exactly Q = qh*exp(-lam*h), P = Q/(Kz*lam) and the linear mean profile, through the same pad/truncate/shift/crop as the numerical branch; the layer step equals the cubic Taylor polynomial of exp(dz*M) entry by entry; on the eigenvectors it multiplies by E3(-+lam*dz); hence for height-independent coefficients on ANY grid the numerical mode solution is exactly qh*prod E3(-lam dz_j) (alpha = qh/(Kz lam)); over the reals 0 <= exp(-x)-E3(-x) <= x^4/24 and |prod E3 - exp(-lam H)| <= lam^4/24 * H * dzmax^3 (third order; the bound drops exactly 8-fold per halving). Tie: bridge lemmas on a,b,c,d (a sign slip breaks bridge_b for all inputs) + float correspondence analytic/numeric.",
+        note="PARTIAL: the O(dz^3) remainder bound is proved for real decay rates only (C05_third_order_real_partial, stdlib real axioms); for complex vertical wavenumbers it is carried by the order oracle (error ratio per halving >= 6 at n, 2n, 4n). Other theorems closed under the global context, exact arithmetic.",
+        technique="Coq proof (field identities, induction over layers, shooting uniqueness; Coquelicot MVT chain for the remainder) + slice translator/bridge + float correspondence; convergence-order oracle",
+        design="6/C05",
+    ),
 }
 
 NOT_YET = "check not built yet in this round of work (planned in DESIGN.md section 6); no claim is made"
